@@ -5,14 +5,17 @@ package rulelist
 // C15 (b) — a successful refresh stores a stable normal form.
 //
 //vx:overlay internal/filtering/rulelist/zz_vx_c15.go
-//vx:entry vxC15NormalForm reach=accepted,rejected-html,rejected-binary,ascii-rule,ascii-empty,title,html-after-rule budget_s=150
+//vx:entry vxC15NormalForm reach=accepted,rejected-html,rejected-binary,ascii-rule,ascii-empty,title,html-after-rule
 //vx:entry vxC15HighBytes reach=hb-accepted,hb-unicode-space-trimmed
+//vx:entry vxC15LongLines reach=ll-grown,ll-too-long
 //vx:stub hash/crc32.Update VxC15CRC
-//vx:note NormalForm: every 7-bit text of 1..5 (thorough 1..7) symbolic bytes; "! Title: " line with 0..1 (0..3) symbolic title bytes behind 0..2 and in front of 0..2 (0..4) symbolic bytes; mixed-case <HTml / <!DocType line behind 0..3 and in front of 0..1 symbolic bytes. Reference = line classifier written from the statement (VxC15Ref); CRC-32 is the real function (bit-serial definition replaces the table/assembly code).
+//vx:note LongLines: a rule line of 1023..1026 bytes (around the 1 KiB parse buffer, one symbolic byte in it, LF or CRLF or no line end) is stored unchanged and is a fixed point; a line longer than bufio.MaxScanTokenSize is refused.
+//vx:note NormalForm: every 7-bit text of 1..5 (thorough 1..6) symbolic bytes; "! Title: " line with 0..1 (0..2) symbolic title bytes behind 0..2 and in front of 0..2 (0..3) symbolic bytes; mixed-case <HTml / <!DocType line behind 0..3 and in front of 0..1 symbolic bytes. Reference = line classifier written from the statement (VxC15Ref); CRC-32 is the real function (bit-serial definition replaces the table/assembly code).
 //vx:note HighBytes: texts of 1..3 (thorough 1..4) bytes over the alphabet {a, space, LF, c2, 85, a0, e2, 80, a8} (NEL, NBSP, U+2028 and broken sequences): stored lines carry no Unicode white space at the ends, stored form is a fixed point.
-//vx:note outside: lines longer than the 1 KiB scanner buffer (buffer growth), texts longer than the bounds.
+//vx:note outside: texts longer than the bounds; lines between 1 KiB and 64 KiB other than the sampled lengths.
 
 import (
+	"bufio"
 	"bytes"
 	"hash/crc32"
 	"io"
@@ -50,12 +53,7 @@ func VxC15CRC(crc uint32, tab *crc32.Table, p []byte) uint32 {
 	return VxC15Last
 }
 
-// vxC15Space: ASCII white space.
-func vxC15Space(c byte) bool {
-	return c == ' ' || c == '\t' || c == '\n' || c == '\v' || c == '\f' || c == '\r'
-}
-
-// vxC15SpaceNF is vxC15Space without path forks.
+// vxC15SpaceNF: ASCII white space, evaluated without path forks.
 func vxC15SpaceNF(c byte) bool {
 	return vx.Or(vx.Or(vx.Or(c == ' ', c == '\t'), vx.Or(c == '\n', c == '\v')), vx.Or(c == '\f', c == '\r'))
 }
@@ -136,14 +134,15 @@ func VxC15High(in []byte) bool {
 	return acc >= 0x80
 }
 
-// VxC15Init makes the engine run the initialisers of packages of which the
-// code under test only reads variables (io.EOF).
+// VxC15Init touches package io before the code under test reads io.EOF (an
+// earlier engine version skipped the initialisers of packages of which only
+// variables are read; harmless now).
 func VxC15Init() { _ = io.MultiReader() }
 
 func vxC15Input() []byte {
 	max := 5
 	if vx.Thorough() {
-		max = 7
+		max = 6
 	}
 	switch vx.Choice("shape", 3) {
 	case 0:
@@ -285,4 +284,53 @@ func vxC15HighBytes() {
 		vx.Reach("hb-unicode-space-trimmed")
 	}
 	vxC15Stable(stored, summed, res)
+}
+
+// vxC15LongLines: lines around and beyond the parse buffer.
+func vxC15LongLines() {
+	VxC15Init()
+	var in []byte
+	tooLong := vx.Choice("kind", 2) == 1
+	n := 1023 + vx.Choice("len", 4)
+	if tooLong {
+		n = bufio.MaxScanTokenSize + 1
+	}
+	in = append(in, "first\n"...)
+	line := bytes.Repeat([]byte{'x'}, n)
+	if !tooLong {
+		c := vx.Byte("c")
+		vx.Assume(vx.And(c > ' ', c < 0x7f))
+		line[n/2] = c
+	}
+	in = append(in, line...)
+	want := append([]byte("first\n"), line...)
+	want = append(want, '\n')
+	switch vx.Choice("eol", 3) {
+	case 0:
+		in = append(in, '\n')
+	case 1:
+		in = append(in, "\r\n"...)
+	}
+	var out bytes.Buffer
+	VxC15Log, VxC15Last = nil, 0
+	res, err := NewParser().Parse(&out, bytes.NewReader(in), make([]byte, DefaultRuleBufSize))
+	if tooLong {
+		vx.Reach("ll-too-long")
+		vx.Assert(err != nil, "a line beyond the maximum line length makes the refresh fail")
+		return
+	}
+	vx.Reach("ll-grown")
+	vx.Assert(err == nil, "a long text line is accepted")
+	if err != nil {
+		return
+	}
+	vx.Assert(res.RulesCount == 2, "long line is one rule")
+	vx.Assert(bytes.Equal(out.Bytes(), want), "long line is stored unchanged")
+	var out2 bytes.Buffer
+	summed := VxC15Log
+	VxC15Log, VxC15Last = nil, 0
+	res2, err2 := NewParser().Parse(&out2, bytes.NewReader(out.Bytes()), make([]byte, DefaultRuleBufSize))
+	vx.Assert(err2 == nil && res2.RulesCount == 2, "the stored form parses to the same count")
+	vx.Assert(bytes.Equal(VxC15Log, summed), "re-parse yields the same checksum (same stream summed)")
+	vx.Assert(bytes.Equal(out2.Bytes(), out.Bytes()), "the stored form is a fixed point")
 }
